@@ -41,6 +41,14 @@ Definition w_high_logon : list act := [ASess [] (OStart sp_A None); APeerNum 4; 
 (* 3 is lost; the Reject numbered 4 arrives, then 5 and 6 *)
 Definition w_reject_reveals : list act :=
   [ASess [] (OStart sp_I None); ALogon; D_ok; D_lost; AMsg false [51] [(45, [50])]; D_ok; D_ok].
+(* both sides lost messages: the session has sent application message 2; the counterparty's 3 is lost; the
+   counterparty's own ResendRequest [2,0], numbered 4, reveals the gap: the session sends ResendRequest(3,0) AND serves
+   the counterparty's request from its persister (state resend_request_received -> continuous); the burst is
+   replay 3, GapFill 4->5 *)
+Definition spec_D20 : msgspec := mkSpec [68] [] body_D 0 false true.
+Definition w_rr_reveals : list act :=
+  [ASess [] (OStart sp_I None); ALogon; D_ok; ASess [] (OSend spec_D20); D_lost;
+   AMsg false [50] [(7, [50]); (16, [48])]; D_ok; D_ok].
 (* no loss *)
 Definition w_no_loss : list act := [ASess [] (OStart sp_I None); ALogon; D_ok; AMsg false [48] []; D_ok; D_ok].
 
@@ -57,3 +65,11 @@ Definition chunks_at (acts : list act) (k : nat) : list bytes :=
   match nth k (fst (run_mini acts)) OEmpty with OIn c => c | _ => [] end.
 (* the session after START, the Logon exchange and message 2: continuous, expecting 3 *)
 Definition s_at3 : option sess := w_sess (r_w (run_acts mini dec_mini [] [ASess [] (OStart sp_I None); ALogon; D_ok])).
+
+(* the session right after it has processed the counterparty's ResendRequest of w_rr_reveals (operation 4 of the
+   history), before the burst (operation 5) arrives *)
+Definition s_after_rr : option sess :=
+  match w_sess (r_w (run_acts mini dec_mini [] (firstn 5 w_rr_reveals))) with
+  | Some s => Some (fst (feed mini dec_mini [] T0 (chunks_at w_rr_reveals 4) s))
+  | None => None
+  end.
